@@ -380,7 +380,21 @@ class SymList:
     def __delitem__(self, i):
         # `del seq[i]` (additive): the element at index i is taken out, the rest keeps its order
         if isinstance(i, slice):
-            raise OutOfReach("del of a slice of a symbolic sequence")
+            # `del seq[a:b]` (step 1): the elements a..b-1 are taken out, bounds clamped as Python does
+            if i.step not in (None, 1):
+                raise OutOfReach("del of a stepped slice of a symbolic sequence")
+            s, n = self.term, self._len()
+
+            def clamp(x, default):
+                if x is None:
+                    return default
+                t = _idx_term(x)
+                return z3.If(t < 0, z3.If(n + t < 0, z3.IntVal(0), n + t), z3.If(t > n, n, t))
+            lo = clamp(i.start, z3.IntVal(0))
+            hi = clamp(i.stop, n)
+            hi = z3.If(hi > lo, hi, lo)
+            self._loc.set(z3.simplify(z3.Concat(z3.Extract(s, 0, lo), z3.Extract(s, hi, n - hi))))
+            return
         s = self.term
         n = self._len()
         it = self._norm_index(i)
